@@ -85,6 +85,10 @@ let parse_op2 t : op2 =
     let k = (match count t with Some k -> k | None -> 0) in
     OpSetWithdrawalsDeprecated (rep k (fun () -> let a = num t in let c = num t in let sc = (next t = "1") in ((a, c), sc)))
   | Some "rmmint" -> ignore (next t); OpRemoveMint
+  | Some "setmintasset" -> ignore (next t);
+    let p = bytes t in
+    let k = (match count t with Some k -> k | None -> 0) in
+    OpSetMintAsset (p, rep k (fun () -> let n = bytes t in let z = z_of_string (next t) in (n, z)))
   | Some "kprops" -> ignore (next t);
     let k = (match count t with Some k -> k | None -> 0) in
     OpProposalsKeyed (rep k (fun () -> let i = num t in let d = num t in (i, d)))
